@@ -223,7 +223,7 @@ def run(prop, a, seed, t0):
     for g in grounds:
         if not g.ok:
             payload = dict(property=prop.id, obligation=g.name, kind="ground", detail=g.detail, witness=g.witness)
-            report_violation(g.name, payload, json.dumps(g.witness, ensure_ascii=False, default=str) + " " + g.detail, g.witness is not None)
+            report_violation(g.name, payload, json.dumps(g.witness, ensure_ascii=False, default=str) + " " + g.detail, getattr(g, "native", g.witness is not None))
     for b in bounded:
         for f in b.get("failures", []):
             payload = dict(property=prop.id, obligation=b["name"], kind="bounded", witness=f)
